@@ -303,3 +303,28 @@ func VH_C13_WriterOffers() {
 	w.Close()
 	vhReach("c13-writer-offers")
 }
+
+// H8: the random choice for messages without a key is made from several goroutines at once (the balancers are
+// documented as safe for concurrent use): whatever generator it draws from must be safe for that - a *rand.Rand of
+// its own is not, unless every use holds a lock (lockset analysis on the generator object) - and the choice is an
+// offered partition.
+func VH_C13_ConcurrentRandom() {
+	parts := []int{3, 5, 8}
+	vhGuardCheck(true)
+	got := make([]int, 6)
+	for g := 0; g < 2; g++ {
+		g := g
+		go func() {
+			got[3*g+0] = (&Hash{}).Balance(Message{}, parts...)
+			got[3*g+1] = (&Murmur2Balancer{}).Balance(Message{}, parts...)
+			got[3*g+2] = CRC32Balancer{}.Balance(Message{}, parts...)
+		}()
+	}
+	vhRunAll()
+	vhRunAll()
+	vhGuardCheck(false)
+	for _, p := range got {
+		vhAssert(p == 3 || p == 5 || p == 8, "random-choice-is-an-offered-partition")
+	}
+	vhReach("c13-concurrent-random")
+}
